@@ -29,6 +29,126 @@ META = dict(
 )
 
 
+def _opt_variant(cb, rv):
+    """'None' / 'Some' if rvalue (possibly through one temp) is an Option aggregate"""
+    if rv.get("rv") == "agg" and isinstance(rv.get("kind"), dict) and rv["kind"].get("adt") == "core::option::Option":
+        return rv["kind"]["variant"], rv.get("ops", [])
+    if rv.get("rv") == "use":
+        o = rv["o"]
+        pl = o.get("m") or o.get("c")
+        if pl and len(pl) == 1:
+            ds = cb.defs().get(pl[0], [])
+            if len(ds) == 1 and ds[0][2] == "assign":
+                return _opt_variant(cb, ds[0][3])
+    return None, None
+
+
+def r5_accumulator(ctx, cb):
+    R = "C13-R5"
+    pushes = set(cb.call_blocks(PS + "::try_push_byte_definitive"))
+    # decision switches: discr(<local>) of Option type whose Some arm reaches a push that the None arm cannot
+    accs = {}
+    for bi, e, targets, otherwise in cb.switch_edges():
+        if e[0] != "discr":
+            continue
+        inner = e[1]
+        if inner[0] != "local" and not (inner[0] == "place" and len(inner[1]) == 1):
+            continue
+        loc = inner[1] if inner[0] == "local" else inner[1][0]
+        if not isinstance(loc, int):
+            continue
+        ty = cb.locals[loc]["ty"] if loc < len(cb.locals) else ""
+        if not ty.startswith("core::option::Option<"):
+            continue
+        nd = [d for d in cb.defs().get(loc, []) if d[2] == "assign"]
+        if len(nd) < 2:
+            continue
+        accs[loc] = (bi, nd)
+    ctx.check(len(accs) == 1, R, "force_bytes:one-uniqueness-accumulator",
+              "the marker expansion is decided by one Option accumulator local assigned on several paths",
+              "expected exactly one multi-assigned Option local deciding the marker expansion, found %d" % len(accs), site=cb.where())
+    if len(accs) != 1:
+        return
+    loc, (dec, nd) = next(iter(accs.items()))
+    kinds = []
+    for (bi, si, _, rv) in nd:
+        v, ops = _opt_variant(cb, rv)
+        kinds.append((bi, v, ops))
+    unknown = [k for k in kinds if k[1] is None]
+    ctx.check(not unknown, R, "accumulator:assignments-are-literal-variants",
+              "every assignment to the accumulator is a literal None/Some", "accumulator assigned a non-literal value at %s"
+              % [cb.where(k[0]) for k in unknown], site=cb.where(dec))
+    nones = [k[0] for k in kinds if k[1] == "None"]
+    somes = [k for k in kinds if k[1] == "Some"]
+    idom = cb.dominators()
+    init = [n for n in nones if all(cb.dominates(n, k[0], idom) for k in kinds)]
+    ctx.check(len(init) == 1 and bool(somes), R, "accumulator:initialised-none",
+              "the accumulator is initialised to None before the scan and set to Some inside it",
+              "no dominating None initialisation (or no Some assignment) of the uniqueness accumulator", site=cb.where(dec))
+    if len(init) != 1 or not somes:
+        return
+    init = init[0]
+    conflicts = [n for n in nones if n != init]
+    ctx.floor(R, "conflict resets of the uniqueness accumulator", len(conflicts), 1)
+    some_blocks = {k[0] for k in somes}
+    for n in conflicts:
+        reach = cb.reachable(n, cut_blocks=[init])
+        hit = sorted(reach & some_blocks)
+        ctx.check(not hit, R, "accumulator:conflict-is-final#%d" % conflicts.index(n),
+                  "after a conflict reset no Some assignment is reachable before re-initialisation",
+                  "after the accumulator is reset to None on a conflict the scan continues and can assign Some again (%s): "
+                  "one of several possible special tokens is then forced" % [cb.where(h) for h in hit], site=cb.where(n))
+    # Some(t) only if the accumulator is None or equals Some(t), and only for single-token ranges
+    def is_none_of_acc(x):
+        return x[0] == "call" and x[1].endswith("Option::<T>::is_none") and L.root_local(cb, x[2][0]) == loc
+    def eq_acc(x):
+        return (x[0] == "call" and x[1].endswith("PartialEq>::eq") and
+                any(L.root_local(cb, a) == loc for a in x[2]))
+    def single_range(x):
+        if not (x[0] == "call" and x[1].endswith("::eq") and len(x[2]) == 2):
+            return False
+        names = set()
+        for a in x[2]:
+            a = L.strip_wrappers(a)
+            while a[0] in ("ref", "deref") and isinstance(a[1], tuple):
+                a = a[1]
+            if a[0] == "call":
+                names.add(a[1].rsplit("::", 1)[1])
+            elif a[0] == "ref":
+                v = L.value_of(cb, a)
+                if v and v[0] == "call":
+                    names.add(v[1].rsplit("::", 1)[1])
+        return names == {"start", "end"}
+    g1 = L.guard_edges_multi(cb, [(is_none_of_acc, True), (eq_acc, True)])
+    g2 = L.guard_edges(cb, single_range, True)
+    for k in somes:
+        bi = k[0]
+        ctx.check(bool(g1) and not L.dominated_by_cut(cb, [bi], g1, start=init), R, "accumulator:some-only-if-none-or-equal",
+                  "Some(t) is stored only when the accumulator is None or already Some(t)",
+                  "the accumulator is overwritten with Some(t) without testing that it was None or the same id", site=cb.where(bi))
+        ctx.check(bool(g2) and not L.dominated_by_cut(cb, [bi], g2, start=init), R, "accumulator:some-only-for-single-token-range",
+                  "Some(t) is stored only for ranges with start == end",
+                  "a multi-token range can set the unique token id", site=cb.where(bi))
+    # the expansion pushes happen only on the Some arm of the decision
+    t = cb.blocks[dec]["term"]
+    some_t = [tb for v, tb in t["targets"] if int(v) == 1]
+    special = []
+    for bi in pushes:
+        e = cb.expr(cb.blocks[bi]["term"]["args"][1])
+        src = e[2][0] if e[0] == "agg" and e[2] else None
+        plain = False
+        if src is not None and src[0] == "place":
+            base = cb.expr_place([src[1][0]])
+            plain = base[0] == "call" and base[1] == PS + "::forced_byte"
+        if not plain:
+            special.append(bi)
+    if ctx.floor(R, "marker-expansion push sites", len(special), 1):
+        cut = [(dec, tb) for tb in some_t]
+        ctx.check(bool(cut) and not L.dominated_by_cut(cb, special, cut, start=init), R, "expansion-only-if-unique",
+                  "the \\xFF[id] expansion is pushed only on the Some arm of the accumulator",
+                  "the marker expansion can be pushed although no unique token id was determined", site=cb.where(dec))
+
+
 def run(ctx):
     P = ctx.prog
     # ---------------------------------------------------------------- R1
@@ -76,6 +196,13 @@ def run(ctx):
     ctx.check(not bad, "C13-R1", "force_bytes:history-only-via-commit-transition",
               "force_bytes changes lexer_stack/rows/bytes only through try_push_byte_definitive and forced_byte's brackets",
               "force_bytes writes %s outside the commit transition" % bad, site=cb.where())
+
+    # ---------------------------------------------------------------- R5 marker expansion: uniqueness accumulator
+    # The expansion of a forced 0xFF is decided by an Option-typed accumulator local: it starts None, becomes
+    # Some(t) only when it is None or already Some(t) and only for single-token ranges, and a conflict (a second
+    # id, or a multi-token range) resets it to None *and is final*: no later Some assignment is reachable from
+    # the conflict before the accumulator is re-initialised.  (Seed C13-r2: `break 'spec` -> `break`.)
+    r5_accumulator(ctx, cb)
 
     # ---------------------------------------------------------------- R2 forced_byte
     f = ctx.body(PS + "::forced_byte")
